@@ -1,0 +1,18 @@
+//go:build verif
+
+package tchannel
+
+// C12 (frame ownership): contracts on the points where a frame changes hands.
+
+// Completing the response must not give back (or touch) frames that the
+// request side of the call still refers to: its reader's current chunks alias
+// the payload of the most recently received request frame.
+//@ funcfield InboundCallResponse.timeNow() (t time.Time)
+//@   modifies nothing
+
+//@ func (response *InboundCallResponse) doneSending()
+//@   requires response.mex != nil && MexSetOK(response.mex.mexset)
+//@   nosafety
+//@   label completing-the-response-leaves-request-frames-alone
+//@   modifies allbut own, Frame
+//@   property C01 C12
